@@ -531,7 +531,8 @@ struct timespec* sentTime) {
     if (m_repeat) {
       return setState(bs_skip, RESULT_ERR_CRC);
     }
-    return setState(bs_recvCmdAck, RESULT_ERR_CRC);
+    m_currentAnswering = getAnswer();  // send NAK for the first attempt of a message that would be answered
+    return setState(m_currentAnswering ? bs_sendCmdAck : bs_recvCmdAck, RESULT_ERR_CRC);
 
   case bs_recvCmdAck:
     if (recvSymbol == ACK) {
